@@ -28,6 +28,7 @@ Fixpoint txt (s : string) : text :=
   | EmptyString => []
   | String a r => Z.of_N (N_of_ascii a) :: txt r
   end.
+Arguments txt s%string.
 
 Fixpoint text_eqb (a b : text) : bool :=
   match a, b with
@@ -44,15 +45,23 @@ Fixpoint text_ltb (a b : text) : bool :=
   | x :: a', y :: b' => if x <? y then true else if y <? x then false else text_ltb a' b'
   end.
 
-(* decimal digits of an unsigned integer (itoa) *)
-Fixpoint dec_fuel (fuel : nat) (n : N) (acc : text) : text :=
-  match fuel with
-  | O => acc
-  | S f =>
-      let acc' := (48 + Z.of_N (n mod 10)) :: acc in
-      if (n <? 10)%N then acc' else dec_fuel f (n / 10) acc'
+(* decimal digits of an unsigned integer (itoa): the standard library's conversion to a decimal
+   numeral, digit by digit as bytes *)
+Fixpoint uint_text (d : Decimal.uint) : text :=
+  match d with
+  | Decimal.Nil => []
+  | Decimal.D0 r => 48 :: uint_text r
+  | Decimal.D1 r => 49 :: uint_text r
+  | Decimal.D2 r => 50 :: uint_text r
+  | Decimal.D3 r => 51 :: uint_text r
+  | Decimal.D4 r => 52 :: uint_text r
+  | Decimal.D5 r => 53 :: uint_text r
+  | Decimal.D6 r => 54 :: uint_text r
+  | Decimal.D7 r => 55 :: uint_text r
+  | Decimal.D8 r => 56 :: uint_text r
+  | Decimal.D9 r => 57 :: uint_text r
   end.
-Definition dec (n : N) : text := dec_fuel (S (N.to_nat (N.log2 n))) n [].
+Definition dec (n : N) : text := uint_text (N.to_uint n).
 
 (* ---------- serde_json::Value ---------- *)
 Inductive jv :=
@@ -301,3 +310,38 @@ Definition touches (p : path) (x : xstep) : bool :=
   | XSave q | XRemove q | XForeign q _ => q =? p
   | _ => false
   end.
+
+(* ---------- vocabulary of the statements ---------- *)
+(* strictly increasing in byte order (hence without duplicates) *)
+Fixpoint keys_sorted (l : list text) : bool :=
+  match l with
+  | a :: ((b :: _) as r) => text_ltb a b && keys_sorted r
+  | _ => true
+  end.
+(* the "value" field of an exported metric object *)
+Definition obj_value (v : jv) : option jv :=
+  match v with JObj l => bt_lookup KEY_VALUE l | _ => None end.
+(* reading an escaped string back (the inverse of flat_map escape_byte, as a JSON parser does it
+   for the escapes serde_json writes) *)
+Definition unhex_digit (c : Z) : Z := if c <? 58 then c - 48 else c - 87.
+Definition unescape1 (x : Z) : Z :=
+  if x =? 98 then 8 else if x =? 102 then 12 else if x =? 110 then 10
+  else if x =? 114 then 13 else if x =? 116 then 9 else x.
+Fixpoint unescape (l : text) : text :=
+  match l with
+  | [] => []
+  | c :: r =>
+      if c =? 92 then
+        match r with
+        | [] => []
+        | x :: r1 =>
+            if x =? 117 then
+              match r1 with
+              | _ :: _ :: h :: g :: r2 => (16 * unhex_digit h + unhex_digit g) :: unescape r2
+              | _ => []
+              end
+            else unescape1 x :: unescape r1
+        end
+      else c :: unescape r
+  end.
+Definition is_byte (b : Z) : Prop := 0 <= b < 256.
